@@ -316,7 +316,7 @@ class MappingSchema(AbstractMappingSchema, Schema):
         self._dialect: Dialect = Dialect.get_or_raise(dialect)
         self._type_mapping_cache: dict[tuple[str, Dialect], exp.DataType] = {}
         self._normalized_table_cache: dict[tuple[exp.Table, DialectType, bool], exp.Table] = {}
-        self._normalized_name_cache: dict[tuple[str, DialectType, bool, bool], str] = {}
+        self._normalized_name_cache: dict[tuple[str, bool, DialectType, bool, bool], str] = {}
         self._find_cache: dict[tuple[exp.Table, bool], dict[str, object] | None] = {}
         self._depth: int = 0
         schema = {} if schema is None else schema
@@ -642,7 +642,9 @@ class MappingSchema(AbstractMappingSchema, Schema):
 
         dialect = dialect or self.dialect
         name_str = name if isinstance(name, str) else name.name
-        cache_key = (name_str, dialect, is_table, normalize)
+        # A quoted identifier may be normalized differently from an unquoted one with the same text
+        quoted = not isinstance(name, str) and name.quoted
+        cache_key = (name_str, quoted, dialect, is_table, normalize)
 
         if cached := self._normalized_name_cache.get(cache_key):
             return cached
